@@ -8,6 +8,7 @@ pub mod c03;
 pub mod c04;
 pub mod c05;
 pub mod c06;
+pub mod c07;
 pub mod c08;
 pub mod c09;
 pub mod c11;
@@ -19,7 +20,7 @@ pub mod c17;
 pub mod c18;
 pub mod c20;
 
-pub const ALL: &[&str] = &["C01", "C02", "C03", "C04", "C05", "C06", "C08", "C09", "C11", "C12", "C13", "C14", "C16", "C17", "C18", "C20"];
+pub const ALL: &[&str] = &["C01", "C02", "C03", "C04", "C05", "C06", "C07", "C08", "C09", "C11", "C12", "C13", "C14", "C16", "C17", "C18", "C20"];
 
 pub fn run(ctx: &Ctx) -> Option<Outcome> {
     Some(match ctx.id.as_str() {
@@ -30,6 +31,7 @@ pub fn run(ctx: &Ctx) -> Option<Outcome> {
         "C05" => c05::run(ctx),
         "C06" => c06::run(ctx),
         "C17" => c17::run(ctx),
+        "C07" => c07::run(ctx),
         "C08" => c08::run(ctx),
         "C09" => c09::run(ctx),
         "C11" => c11::run(ctx),
@@ -53,6 +55,7 @@ pub fn replay(id: &str, kind: &str, case: &Value) -> Option<Result<(), String>> 
         "C05" => c05::replay(kind, case),
         "C06" => c06::replay(kind, case),
         "C17" => c17::replay(kind, case),
+        "C07" => c07::replay(kind, case),
         "C08" => c08::replay(kind, case),
         "C09" => c09::replay(kind, case),
         "C11" => c11::replay(kind, case),
